@@ -99,6 +99,7 @@ def resolve_import(
     target: Import,
     *,
     environment: IrEnvironment,
+    _visited: frozenset[str] = frozenset(),
 ) -> IrTarget | None:
     config = Config()
     arguments = config.arguments
@@ -108,6 +109,15 @@ def resolve_import(
 
     if target.module_name is None:
         raise ImportError
+
+    # A name re-exported in a cycle (`a: from b import f`, `b: from a import f`)
+    if target.qualified_name in _visited:
+        error.error(
+            f"unable to resolve call to {target.name!r}, {target.qualified_name!r} is "
+            f"imported in a cycle",
+            culprit=target,
+        )
+        return None
 
     if is_in_import_blacklist(target.module_name):
         return None
@@ -152,7 +162,11 @@ def resolve_import(
         return IrTarget(symbol=new_target, ir=ir)
 
     if isinstance(new_target, Import):
-        return resolve_import(new_target, environment=environment)
+        return resolve_import(
+            new_target,
+            environment=environment,
+            _visited=_visited | {target.qualified_name},
+        )
 
     if new_target is None and is_call_to_method_or_member(local_name):
         error.info(unresolved_.format(why="it is a method"), culprit=target)
